@@ -6,11 +6,11 @@
    separately built values).  The model of "sharing is invisible" is trivial: all fingerprints are equal.
    In addition the operations the case exercises are mapped to the model's event lists and checked
    structurally: no write to Program-owned memory, ownership respected — except where the model itself
-   predicts a race (template cell redefinition F20, unscanned imported strings F14); the harness' own
+   predicts a race (template cell redefinition C16-N1, unscanned imported strings F14); the harness' own
    prediction flag must agree with the model's. *)
 From Coq Require Import List Arith NArith Bool.
 Import ListNotations.
-From Verif.C16 Require Import Model.
+From Verif.C16 Require Export Model.
 
 Inductive tcase :=
 | CProg (ops : list vop) (predicted_racy : bool) (seq : N) (runs : list N)
